@@ -118,12 +118,14 @@ export async function run() {
         // fresh-context singles: definition of each name as produced by one call
         const single = {}; // parser -> {schema, defs}
         const freshDef = new Map(); // name -> canon(def) (all singles must agree)
+        const freshDefBy = new Map(); // name -> first parser whose fresh context defined it
         for (const n of names) {
           const ctx = mk();
           const s = parsers[n].schemaWithContext(ctx);
           single[n] = { schema: canon(s), defs: Object.fromEntries(Object.entries(defsOf(ctx)).map(([k, v]) => [k, canon(v)])) };
           for (const [k, v] of Object.entries(single[n].defs)) {
-            if (freshDef.has(k) && freshDef.get(k) !== v) rep.violation(`C16 two fresh contexts define the same name differently`, `definition of ${k} differs between fresh contexts (reached from ${n} and from another parser) [${setting.name}${ov ? "+override" : ""}]`, { engine: "E-src", program: text, name: k, parser: n, setting: setting.name });
+            if (freshDef.has(k) && freshDef.get(k) !== v) rep.violation(`C16 two fresh contexts define the same name differently`, `definition of ${k} differs between fresh contexts (reached from ${n} and from ${freshDefBy.get(k)}) [${setting.name}${ov ? "+override" : ""}]`, { engine: "E-src", program: text, name: k, history: [freshDefBy.get(k), n], setting: setting.name, overrides: ov ? Object.keys(ov) : [] });
+            if (!freshDef.has(k)) freshDefBy.set(k, n);
             freshDef.set(k, v);
           }
         }
@@ -226,5 +228,54 @@ export async function run() {
     },
     assumptions: ["the context holds no mutable state besides collectedDefinitions / inProgressDefinitions (read directly from the object)", "JSON pointer resolution implemented in c16.mjs, cross-checked by python jsonschema on a rotating subset of states"],
   });
+}
+// re-executes one recorded call history on a fresh context and compares every definition with the one a
+// fresh context gives for each parser alone, and the export with that of the reversed history
+export async function replay(c) {
+  if (!c.program || !c.history) return null;
+  const pool = new CompilePool({ size: 1 });
+  let r;
+  try {
+    r = classify(await pool.request({ files: { "entry.ts": c.program }, settings: DEFAULT_SETTINGS }));
+  } finally {
+    pool.close();
+  }
+  if (r.kind !== "code") return { reproduced: undefined, observed: { compile: r.kind } };
+  const { parsers, client } = loadProgram(r.code);
+  const setting = SETTINGS.find((s) => s.name === c.setting) ?? SETTINGS[0];
+  const ov = (c.overrides ?? []).length ? Object.fromEntries(c.overrides.map((n) => [n, parsers.POverride])) : null;
+  const mk = () => new client.codegen.SchemaPrintingContext({ refPathTemplate: setting.refPathTemplate, definitionContainerKey: setting.definitionContainerKey, ...(ov ? { namedTypeSchemaOverrides: ov } : {}) });
+  const defsOf = (ctx) => {
+    const e = ctx.exportDefinitions();
+    return setting.definitionContainerKey ? e[setting.definitionContainerKey] ?? {} : e;
+  };
+  const runHist = (h) => {
+    const ctx = mk();
+    let schema;
+    for (const m of h) schema = parsers[m].schemaWithContext(ctx);
+    return { ctx, schema, defs: defsOf(ctx) };
+  };
+  const problems = [];
+  let after;
+  try {
+    after = runHist(c.history);
+  } catch (e) {
+    return { reproduced: true, observed: { threw: e.message } };
+  }
+  for (const m of new Set(c.history)) {
+    const one = runHist([m]);
+    for (const [k, v] of Object.entries(one.defs)) {
+      if (!(k in after.defs)) problems.push(`definition ${k} (needed by ${m}) missing`);
+      else if (canon(after.defs[k]) !== canon(v)) problems.push(`definition ${k} differs from the one a fresh context gives through ${m}`);
+    }
+  }
+  const rev = runHist([...c.history].reverse());
+  if (canon(rev.defs) !== canon(after.defs)) problems.push("export differs from that of the reversed history");
+  const root = { schema: after.schema };
+  setting.place(root, JSON.parse(JSON.stringify(after.ctx.exportDefinitions())));
+  const refs = [];
+  collectRefs(root, refs);
+  for (const ref of new Set(refs)) if (resolvePointer(root, ref) === undefined) problems.push(`$ref ${ref} does not resolve`);
+  return { reproduced: problems.length > 0, observed: { definitions: Object.keys(after.defs), problems } };
 }
 if (import.meta.url === `file://${process.argv[1]}`) run().then((c) => process.exit(c));
